@@ -271,7 +271,28 @@ def ext_corpus():
     path = f'{WORK}/l1/corpus.tsv'
     os.makedirs(f'{WORK}/l1', exist_ok=True)
     files = sorted(glob.glob(f'{REPO}/derive-ex-tests/tests/*.rs')) + [f'{REPO}/doc/derive_ex.md', f'{REPO}/README.md']
+    # a third, independently written source of inputs: the items of the well-typed program grammars (bin/l2gen.py),
+    # incl. the hostile-name dictionary of C13
+    try:
+        import l2gen
+        seed = int(os.environ.get('VERIF_SEED', '1') or 1)
+        items = []
+        for i in range(500):
+            for g in (l2gen.gen_c20_case, l2gen.gen_c13_case):
+                it = g(seed, i).get('item') or ''
+                if it and 'pub mod' not in it:
+                    items.append(it)
+        gen_rs = f'{WORK}/l1/l2items.{os.getpid()}.rs'
+        open(gen_rs, 'w').write('\n'.join(items) + '\n')
+        files.append(gen_rs)
+    except Exception:
+        gen_rs = None
     r = subprocess.run([XCHECK, 'corpus'] + files, capture_output=True, text=True, env=ENV)
+    if gen_rs:
+        try:
+            os.remove(gen_rs)
+        except OSError:
+            pass
     tmp = f'{path}.{os.getpid()}'
     open(tmp, 'w').write(r.stdout)
     os.replace(tmp, path)
